@@ -92,6 +92,21 @@ FileClausesAt(s, own, isCreate) ==
 FileClauses(s) == FileClausesAt(s, {}, FALSE)
 FileWritten(u) == Ev.state.ue[u].known /\ Ev.state.ue[u].file.exists
 
+(* C02: what the operation wrote to the subscriber's CDR file, read back by the independent TLV walker (tlv.go:
+   session reference [16], cause [9], containers of [5] as <<lsn, rg, total, up, down, ssu>>), equals the records the
+   CHF holds -- after an update all records of the subscriber in order, after a release the released record *)
+SameRec(fr, mr) == fr.ref = mr.ref /\ fr.cause = mr.cause /\ (fr.contsSkipped \/ fr.conts = mr.conts)
+FileHoldsAll(u) ==
+  LET f == Ev.state.ue[u].file  rs == Ev.state.ue[u].recs IN
+  f.exists /\ f.parsed /\ f.complete /\ Len(f.recs) = Len(rs)
+  /\ \A i \in 1..Len(rs) : f.recs[i].tlvOk /\ SameRec(f.recs[i], rs[i])
+FileHoldsReleased(u, ref) ==
+  LET f == Ev.state.ue[u].file  rs == Ev.state.ue[u].recs
+      is == {i \in 1..Len(rs) : rs[i].ref = ref} IN
+  f.exists /\ f.parsed /\ f.complete /\ Len(f.recs) = 1 /\ is # {}
+  /\ f.recs[1].tlvOk /\ SameRec(f.recs[1], rs[CHOOSE i \in is : \A j \in is : j <= i])
+Oversize(u) == \E i \in 1..Len(Ev.state.ue[u].recs) : Ev.state.ue[u].recs[i].berLen > 65535
+
 (* C06 per answered usage entry *)
 RECURSIVE GAClauses(_, _, _, _, _, _)
 GAClauses(p, u, usage, mui, trig, i) ==
@@ -187,6 +202,8 @@ StepUpdate ==
               \cup (IF ~known /\ obs # pre
                       THEN {V("C12", "rejection_no_effect", [status |-> resp.status, acct |-> obs.acct # pre.acct,
                                                             stale |-> a.ref \in DOMAIN h.sess])} ELSE {})
+              \cup (IF known /\ ok /\ ~Oversize(u) /\ ~FileHoldsAll(u)
+                      THEN {V("C02", "file_matches_records", [after |-> "update", split |-> grew])} ELSE {})
               \cup (IF known /\ partial /\ ~(\E i \in 1..Len(obs.ue[u].recs) :
                                                obs.ue[u].recs[i].ref = a.ref /\ obs.ue[u].recs[i].cause = 1)
                       THEN {V("C02", "cause_partial", [split |-> grew])} ELSE {})
@@ -213,6 +230,8 @@ StepRelease ==
               \cup (IF ~known /\ obs # pre
                       THEN {V("C12", "rejection_no_effect", [status |-> resp.status, acct |-> obs.acct # pre.acct,
                                                             stale |-> a.ref \in DOMAIN h.sess])} ELSE {})
+              \cup (IF known /\ resp.status = 204 /\ ~Oversize(u) /\ ~FileHoldsReleased(u, a.ref)
+                      THEN {V("C02", "file_matches_records", [after |-> "release", split |-> grew])} ELSE {})
               \cup (IF acted /\ ~(LET is == {i \in 1..Len(obs.ue[u].recs) : obs.ue[u].recs[i].ref = a.ref}
                                  IN is # {} /\ obs.ue[u].recs[CHOOSE i \in is : \A j \in is : j <= i].cause = 0)
                       THEN {V("C02", "cause_normal", [split |-> grew])} ELSE {})
